@@ -580,7 +580,8 @@ LEVEL_TEXT = ("Theorems over the API model, for every accepted call: add_subcirc
               "blackboxes under prefixed names, the filled one removed, none after strip), and a valuation is consistent for the result iff "
               "it is consistent for the parent (every pre-existing node keeps its equation), its pull-back along name_ is consistent for "
               "strip_io(child), and every attached pair of nets is equal (side conditions: child outputs drive undriven buffers; "
-              "instances well-formed as add_blackbox creates them). The model is tied to circuit.py / tx.py by per-step correspondence; "
+              "instances well-formed as add_blackbox creates them); strip_io=False has its own theorem; composition of lint-clean circuits is "
+              "lint-clean (dot-free instance name, every child input attached). The model is tied to circuit.py / tx.py by per-step correspondence; "
               "every clause is also decided on each recorded result by an exhaustive sweep whose completeness is proved.")
 LEVEL_NOTE = ("Trusted: Coq kernel + vm_compute, std++, the hand-written API model (tied to circuit.py by the per-step correspondence "
               "of this check and of C07), Gen_types translator shapes, harness canonicalisation. Cyclic results are judged structurally only; "
